@@ -37,8 +37,8 @@ Definition list_sumN (l : list N) : N := fold_right N.add 0 l.
 
 (** [nnf::problem_line] *)
 Definition nnf_problem_line (bs : list N) : pres ((N * N * N) * list N) :=
-  match bs with
-  | 110 :: 110 :: 102 :: r0 =>
+  match strip_prefix [110; 110; 102] bs with
+  | Some r0 =>
     do r1 <- space1 r0;
     do '(nodes, r2) <- p_usize r1;
     do r3 <- space1 r2;
@@ -47,7 +47,7 @@ Definition nnf_problem_line (bs : list N) : pres ((N * N * N) * list N) :=
     do '(inputs, r6) <- p_usize r5;
     do r7 <- line_ending r6;
     POk ((nodes, edges, inputs), r7)
-  | _ => PErr
+  | None => PErr
   end.
 
 (** [nnf::preamble] *)
@@ -67,11 +67,9 @@ Definition two63 : N := 9223372036854775808.
 
 (** nom [i64]: sign (true = negative), magnitude *)
 Definition p_i64 (bs : list N) : pres ((bool * N) * list N) :=
-  let '(neg, r) := match bs with
-                   | 45 :: r => (true, r)
-                   | 43 :: r => (false, r)
-                   | _ => (false, bs)
-                   end in
+  let '(neg, r) := if starts_with 45 bs then (true, tl bs)
+                   else if starts_with 43 bs then (false, tl bs)
+                   else (false, bs) in
   match r with
   | b :: _ =>
     if is_digit b then
